@@ -338,9 +338,13 @@ func TestC23(t *testing.T) {
 }
 
 func TestC24(t *testing.T) {
-	Ev.Rule = "generated histories + queries (same space as C01) with every DataStore call of the query recorded by the harness's store wrapper. Expected pruning is recomputed from the REAL filter bits read through ReadFileMetadata / ReadDataBlockBloomFilters (absent filter = cannot rule out) for the bloom expression AND the field-existence guard of the regex expression, and from EvaluateDataBlockMetadata for the prefilter: no OpenFile of a file whose file-level filters rule the bloom expression out; no read overlapping the row data of a ruled-out block; no read inside the filter region when bloom and regex expressions are both nil; every read inside a declared extent (a block's row data or the filter region). Non-trivial: >=1 file and further blocks ruled out; distinct by hash(query, layout, counts)."
+	Ev.Rule = "generated histories + queries (same space as C01) with every DataStore call of the query recorded by the harness's store wrapper. Expected pruning is recomputed from the REAL filter bits read through ReadFileMetadata / ReadDataBlockBloomFilters (absent filter = cannot rule out) for the bloom expression AND the field-existence guard of the regex expression, and from EvaluateDataBlockMetadata for the prefilter: no OpenFile of a file whose file-level filters rule the bloom expression out; no read overlapping the row data of a ruled-out block; no read inside the filter region when bloom and regex expressions are both nil; every read inside a declared extent (a block's row data or the filter region). transient phase: the same with a one-shot OpenFile/Read/Seek failure at a generated position inside about half of the queries. Non-trivial: >=1 file and further blocks ruled out; distinct by hash(query, layout, counts)."
 	Ev.Assumptions = []string{"the regex field-existence guard (documented in the README) is part of the expectation; an empty field name or nil condition cannot rule anything out", "chunk reads may cover sections of pruned blocks as long as they stay inside the region (documented slack)"}
 	runChecks(t, "search", 250, 8000, genSearchCase(searchOpts, 10, true), runSearchProperty(judgeC24))
 	runChecks(t, "merged", 100, 4000, genSearchCase(mergeHeavyOpts, 10, true), runSearchProperty(judgeC24))
 	bigFilterPhase(t, judgeC24)
+	// the same expectations while a transient OpenFile/Read/Seek failure hits the
+	// query: whatever a failure makes the engine skip or retry, it must not make
+	// it read what the filters rule out
+	runChecks(t, "transient", 150, 5000, genSearchCaseFaulted(searchOpts, 10, true), runSearchProperty(judgeC24))
 }
